@@ -1,31 +1,46 @@
+/* rculfhash scenario: real src/rculfhash.c (order allocator, size-2 table, no resize) under the controlled scheduler.
+   usage: scen_lfht PROG SCHED ; ops: A<i> add entry i, U<i> add_unique entry i, L<i> lookup (hash,key) of entry i, X del the node found by the last lookup */
 #define _LGPL_SOURCE
 #include <stdbool.h>
+#include <string.h>
 #include <urcu/flavor.h>
 #include <urcu/rculfhash.h>
-/* harness-provided abstract RCU flavor */
-static void f_lock(void); static void f_unlock(void); static int f_ongoing(void){ return 0; }
-static void f_qs(void){} static void f_off(void){} static void f_on(void){}
-static void f_call_rcu(struct rcu_head *h, void (*fn)(struct rcu_head *)){ fn(h); }
-static void f_sync(void); static void f_reg(void){} static void f_unreg(void){}
-static void f_barrier(void){} static void f_atfork(struct urcu_atfork *a){ (void)a; }
-static const struct rcu_flavor_struct vflavor = {
-  .read_lock=f_lock,.read_unlock=f_unlock,.read_ongoing=f_ongoing,.read_quiescent_state=f_qs,
-  .update_call_rcu=f_call_rcu,.update_synchronize_rcu=f_sync,.update_defer_rcu=0,
-  .thread_offline=f_off,.thread_online=f_on,.register_thread=f_reg,.unregister_thread=f_unreg,
-  .barrier=f_barrier,.register_rculfhash_atfork=f_atfork,.unregister_rculfhash_atfork=f_atfork };
+#include "lfht_flavor.h"
 #define rcu_flavor vflavor
 #include "/repo/src/rculfhash.c"
 #undef _LGPL_SOURCE
 #include "sched.h"
 static void f_lock(void){} static void f_unlock(void){} static void f_sync(void){ vs_call("sync",0); }
+static void f_call_rcu(struct rcu_head *h, void (*fn)(struct rcu_head *)){ fn(h); }
 struct ent { struct cds_lfht_node n; int key; };
-static struct ent E[8]; static struct cds_lfht *ht;
+#define NE 8
+static const unsigned long EH[NE] = {5,5,5,7,4,5,7,4};
+static const int EK[NE] = {0,1,0,3,4,5,3,4};
+static struct ent E[NE]; static struct cds_lfht *ht;
 static int match(struct cds_lfht_node *n, const void *k){ return ((struct ent*)n)->key==*(const int*)k; }
-static void adder(int t){ for(int i=0;i<2;i++){ struct ent *e=&E[t*2+i]; e->key=t*2+i; f_lock(); vs_call("add",(unsigned long)e); cds_lfht_add(ht, 5 /* all collide */, &e->n); vs_ret("add",0); f_unlock(); } }
-static void remover(int t){ for(int i=0;i<4;i++){ int k=i; struct cds_lfht_iter it; f_lock(); vs_call("lookup",k); cds_lfht_lookup(ht,5,match,&k,&it); struct cds_lfht_node *n=cds_lfht_iter_get_node(&it); vs_ret("lookup",(unsigned long)n); { vs_call("del",(unsigned long)n); int r=cds_lfht_del(ht,n); vs_ret("del",r);} f_unlock(); } }
-int main(int argc,char**argv){ setvbuf(stdout,0,_IOLBF,0);
+#define MAXTH 6
+static char *prog[MAXTH]; static int nprog;
+static void body(int t){ struct cds_lfht_node *found=0;
+  for(char *p=prog[t]; *p; p++){
+	int i = p[1]-'0';
+	if(*p=='A'){ p++; vs_call("add",(unsigned long)&E[i]); cds_lfht_add(ht, EH[i], &E[i].n); vs_ret("add",(unsigned long)&E[i]); }
+	else if(*p=='U'){ p++; vs_call("add",(unsigned long)&E[i]); struct cds_lfht_node *r=cds_lfht_add_unique(ht, EH[i], match, &E[i].key, &E[i].n); vs_ret("add",(unsigned long)r); }
+	else if(*p=='L'){ p++; int k=EK[i]; struct cds_lfht_iter it; vs_call("lookup",k); cds_lfht_lookup(ht,EH[i],match,&k,&it); found=cds_lfht_iter_get_node(&it); vs_ret("lookup",(unsigned long)found); }
+	else if(*p=='X'){ vs_call("del",(unsigned long)found); int r=cds_lfht_del(ht,found); vs_ret("del",r); } } }
+int main(int argc,char**argv){
+  static char obuf[1<<20]; setvbuf(stdout,obuf,_IOFBF,sizeof obuf);
+  if(argc<3) return 9;
+  for(char *s=strtok(argv[1],"/"); s && nprog<MAXTH; s=strtok(0,"/")) prog[nprog++]=s;
+  for(int i=0;i<NE;i++){ E[i].key=EK[i]; cds_lfht_node_init(&E[i].n); }
   ht=_cds_lfht_new(2,1,4,0,&cds_lfht_mm_order,&vflavor,NULL);
-  vs_region(E,sizeof E,"E"); vs_region(ht,sizeof *ht,"ht"); vs_region(ht->tbl_order[0],16*1,"b0"); vs_region(ht->tbl_order[1],16,"b1");
-  vs_spawn(adder); vs_spawn(adder); vs_spawn(remover);
-  vs_run(argc>1?argv[1]:"");
-  long b,a; unsigned long c; cds_lfht_count_nodes(ht,&b,&c,&a); printf("final count %lu\n",c); fflush(stdout); _exit(0); }
+  vs_region(&ht->size,sizeof ht->size,"size"); vs_region(E,sizeof E,"E"); vs_region(ht,sizeof *ht,"ht"); vs_region(ht->tbl_order[0],16*1,"b0"); vs_region(ht->tbl_order[1],16,"b1");
+  vs_strict=0;
+  for(int i=0;i<nprog;i++) vs_spawn(body);
+  vs_run(argv[2]);
+  long b,a; unsigned long c; cds_lfht_count_nodes(ht,&b,&c,&a); printf("- final count %lu\n",c);
+  /* chain dump: every node reachable from bucket 0 with its flags */
+  { struct cds_lfht_node *n = ht->tbl_order[0]; printf("- chain");
+    while(n){ unsigned long w=(unsigned long)n->next; char nm[32];
+      if((char*)n>=(char*)E && (char*)n<(char*)(E+NE)) sprintf(nm,"%d",(int)(3+((struct ent*)n-E))); else sprintf(nm,"b%d", n==ht->tbl_order[0]?0:1);
+      printf(" %s:%lu", nm, w&7); n=(struct cds_lfht_node*)(w&~7UL); } printf("\n"); }
+  fflush(stdout); _exit(0); }
